@@ -128,6 +128,9 @@ func runC11(c *Ctx) {
 		cf2 := defaultIdpCfg()
 		cf2.Endpoints = &provider.EndpointConfig{SingleSignOn: epURL("SSO", "https://gateway.example.com/x/sso"), Attribute: epURL("attribute", "https://gateway.example.com/x/attr")}
 		cfgs = append(cfgs, c11Config{"external-urls", cf2, static(cf2.Issuer)})
+		cfs := defaultIdpCfg()
+		cfs.Endpoints = &provider.EndpointConfig{SingleSignOn: ep("/v2/SSO/"), SingleLogOut: ep("v2/SLO/"), Attribute: ep("/v2/attribute/"), Certificate: ep("/v2/cert/"), Callback: ep("/v2/login/")}
+		cfgs = append(cfgs, c11Config{"trailing-slash-paths", cfs, static(cfs.Issuer)})
 		cf3 := defaultIdpCfg()
 		cf3.MetadataEP = ep("/meta/data.xml")
 		cfgs = append(cfgs, c11Config{"metadata-path", cf3, static(cf3.Issuer)})
